@@ -1,10 +1,13 @@
 """C17 WebSocket reads and writes in flight together: exhaustive WsAsyncImpl
 (asynchronous paths of the Stream over the adapter's single write record,
-always-deferred transport completions, partial writes) composed with the
-WsSessionMon monitor; its transition cover is replayed (1) on a scripted
+always-deferred transport completions, partial writes, the single flush in
+flight with its waiters, completion callbacks that issue follow-up calls,
+coalesced peer frames, two write-side calls in flight) composed with the
+WsSessionMon monitor; its transition covers are replayed (1) on a scripted
 transport with deferred completions and (2) on the real sonic.AsyncAdapter
 over loopback TCP after a real handshake, with real partial writes forced by
-minimal socket buffers; recorded traces are validated by TLC."""
+minimal socket buffers; recorded traces are validated by TLC with the C17
+rules of the shared monitor in focus."""
 import json, os, random
 import vlib
 from checks import wsval
@@ -14,8 +17,8 @@ LEVEL = "model_checking"
 MANIFEST = dict(
    engine="tlc-wsasync", path="spec/WsSession",
    technique="TLA+ monitor + implementation model checked exhaustively by TLC; TLC-generated schedules replayed into the real websocket.Stream over a scripted deferred-completion transport and over the real AsyncAdapter on loopback TCP; recorded traces validated by TLC against the monitor",
-   text="Exhaustive TLC check of WsAsyncImpl - AsyncNextFrame/AsyncNextMessage/AsyncWrite/AsyncWriteFrame/AsyncClose/AsyncFlush at callback granularity, pendingFrames, the shared write buffer, AsyncFlush popping one frame per transport write, the adapter's single write/read records, transport writability/readability and partial acceptance as environment steps - composed with the completion and wire rules of WsSessionMon, for all interleavings of up to 3 peer events {data, ping, close} with up to 4 calls (one read and one write-side call in flight at a time) and every order of transport completions. Every transition of the state graph (shortest path + edge) is replayed on the real Stream over a scripted transport that completes only when the schedule says so; a seeded slice of the same schedules and seeded large-message scenarios (minimal SO_SNDBUF/SO_RCVBUF, 0.2-1 MiB messages) run on the real AsyncAdapter over loopback TCP after a real handshake, the IO context driven with PollOne by the driver goroutine. Every callback is counted, everything the client writes is parsed by an independent RFC 6455 parser that also recognises a transfer restarted from offset 0. TLC validates all recorded traces; verdicts come only from them. A 'callback never came' observation on real sockets rests on kernel-level quiescence (nothing ready, both send queues empty) and is re-executed three times with doubled budgets before it counts.",
-   note="Trusted: TLC, the Go drivers (scripted transport mimicking the adapter's single write record, loopback server, wire parser), JSON trace I/O, SIOCOUTQ/SIOCINQ as evidence that loopback delivered. Two write-side calls in flight at once and mixing blocking with asynchronous calls are outside the statement and not generated.",
+   text="Exhaustive TLC check of WsAsyncImpl - AsyncNextFrame/AsyncNextMessage/AsyncWrite/AsyncWriteFrame/AsyncClose/AsyncFlush at callback granularity, pendingFrames, the shared write buffer, AsyncFlush popping one frame per transport write, the adapter's single write/read records, transport writability/readability and partial acceptance as environment steps - composed with the completion and wire rules of WsSessionMon, for all interleavings of up to 3 peer events {data, ping, close} with up to 4 calls (one read and up to two write-side calls in flight at a time: AsyncWrite + AsyncWrite, AsyncWrite + AsyncClose, pong flush + AsyncWrite + AsyncClose) and every order of transport completions. The model follows AsyncFlush/asyncFlush/endFlush (one flush in flight, flushWaiters) at callback granularity: a call may carry follow-ups - its completion callback issues the same call again from inside the completion (a write chained from the write callback, a read re-armed from the read callback) - and the peer may put several frames into one segment, so that a re-armed read completes inside the call with the second of two coalesced Pings. Every transition of the state graphs (shortest path + edge) is replayed on the real Stream over a scripted transport that completes only when the schedule says so; a seeded slice of the same schedules, seeded re-entrant scenarios (chained writes, re-armed reads, coalesced Pings while a flush is in flight) and seeded large-message scenarios (minimal SO_SNDBUF/SO_RCVBUF, 0.2-1 MiB messages) run on the real AsyncAdapter over loopback TCP after a real handshake, the IO context driven with PollOne by the driver goroutine. Every callback is counted, everything the client writes is parsed by an independent RFC 6455 parser that also recognises a transfer restarted from offset 0. TLC validates all recorded traces with the C17 rules of the shared monitor in focus (what its C08 rules would have rejected is listed in the evidence, not reported); verdicts come only from them. A 'callback never came' observation on real sockets rests on kernel-level quiescence (nothing ready, both send queues empty) and is re-executed three times with doubled budgets before it counts.",
+   note="Trusted: TLC, the Go drivers (scripted transport mimicking the adapter's single write record, loopback server, wire parser), JSON trace I/O, SIOCOUTQ/SIOCINQ as evidence that loopback delivered. More than two write-side calls in flight at once and mixing blocking with asynchronous calls are not generated; transport write failures are not injected.",
    design_ref="5/C17")
 
 PAR = int(os.environ.get("VERIF_PAR", str(vlib.NCPU)))
@@ -28,7 +31,11 @@ def _validate(ck, sw, name, beh, label, comp, mode, seed, confirm=False):
     trouble = (summ.get("notes") or {}).get("harness_trouble") if summ else None
     if trouble:
         raise vlib.Inconclusive("%s: the real-socket driver could not observe reliably: %s" % (label, trouble[:3]))
-    bads = wsval.validate(sw, trace, PAR)
+    bads, others = wsval.validate(sw, trace, PAR, focus=("C17",))
+    wsval.note_others(ck, others, label)
+    for sid, i, key in bads:
+        if not key.startswith("C17/"):      # C08/harness/...: the trace itself is not trustworthy
+            raise vlib.Inconclusive("driver/trace trouble: %s at event %d of scenario %d (%s)" % (key, i, sid, label))
     ck.cov["evaluations"] += summ["scenarios"]
     ck.cov["distinct_nontrivial"] += summ["nontrivial"]
     ck.cov["traces_validated_against_impl"] += summ["scenarios"] - len({b[0] for b in bads})
@@ -48,7 +55,7 @@ def _validate(ck, sw, name, beh, label, comp, mode, seed, confirm=False):
                 t2 = os.path.join(ck.work, "confirm_%d.ndjson" % k)
                 vlib.run_replay([comp, "-in", one, "-out", t2, "-seed", str(seed),
                                  "-mode", mode + ",sidbase=%d,budget=%d" % (sid - 1, 4000 * 2 ** k)], timeout=600)
-                b2 = wsval.validate(sw, t2, 1)
+                b2, _ = wsval.validate(sw, t2, 1, focus=("C17",))
                 if not b2 or b2[0][2] != key:
                     raise vlib.Inconclusive("%s: '%s' of scenario %d did not recur on re-execution %d" % (label, key, sid, k + 1))
             confirmed.add(key)
@@ -66,8 +73,39 @@ def _validate(ck, sw, name, beh, label, comp, mode, seed, confirm=False):
     return bads
 
 
-def S(op, api="", k="", t=0, c=0, n=0):
-    return {"op": op, "api": api, "k": k, "t": t, "c": c, "n": n, "st": "", "pend": 0, "nw": 0, "err": ""}
+def S(op, api="", k="", t=0, c=0, n=0, then=0, glue=0):
+    return {"op": op, "api": api, "k": k, "t": t, "c": c, "n": n, "then": then, "glue": glue,
+            "st": "", "pend": 0, "nw": 0, "err": ""}
+
+
+def reentrant_scenarios(seed, count):
+    """Real-socket scenarios in which completion callbacks issue the next call (a write chained from
+    the write callback, a read re-armed from the read callback) while the peer's control frames
+    arrive coalesced in one segment and a flush is in flight. One `env` = one poll cycle; what the
+    schedule leaves open is run to quiescence by the driver."""
+    rnd = random.Random(seed * 7919 + 17)
+    out = []
+    for j in range(count):
+        rd = rnd.choice(["AsyncNextFrame", "AsyncNextFrame", "AsyncNextMessage"])
+        pings = rnd.choice([2, 2, 3])
+        coalesced = [S("peer", k="ping", t=i + 1, glue=1 if i else 0) for i in range(pings)]
+        tail = [S("peer", k="data", t=pings + 1), S("env", k="readable")]
+        tpl = j % 4
+        if tpl == 0:    # a write is in flight (its callback chains the next one) when two pings arrive in one segment
+            s = [S("call", rd, then=pings + 1), S("call", "AsyncWrite", then=1)] + coalesced + \
+                [S("env", k="readable", n=rnd.choice([1, 2, 4]))] + tail
+        elif tpl == 1:  # the first pong flush is in flight when a chained write is started
+            s = [S("call", rd, then=pings + 1)] + coalesced + [S("env", k="readable"), S("call", "AsyncWrite", then=1),
+                 S("env", k="writable", n=rnd.choice([1, 3]))] + tail
+        elif tpl == 2:  # two writes (both chaining) and the read loop, pings behind them
+            s = [S("call", rd, then=pings + 1), S("call", "AsyncWrite", then=1), S("call", "AsyncWrite", then=1)] + \
+                coalesced + [S("env", k="readable", n=rnd.choice([1, 2]))] + tail
+        else:           # pong flush, chained write and a Close started in the same poll cycle
+            s = [S("call", rd, then=pings + 1)] + coalesced + [S("env", k="readable"), S("call", "AsyncWrite", then=1),
+                 S("call", "AsyncClose"), S("env", k="writable", n=2), S("peer", k="closeValid", t=pings + 1),
+                 S("env", k="readable")]
+        out.append(s)
+    return out
 
 
 def partial_scenarios(seed, count):
@@ -105,74 +143,117 @@ def partial_scenarios(seed, count):
     return out
 
 
+KINDS3 = '{"data", "ping", "closeValid"}'
+KINDS6 = '{"data", "ping", "pong", "closeValid", "viol", "eof"}'
+APIS4 = '{"AsyncNextFrame", "AsyncNextMessage", "AsyncWrite", "AsyncClose"}'
+APIS6 = '{"AsyncNextFrame", "AsyncNextMessage", "AsyncWrite", "AsyncWriteFrame", "AsyncFlush", "AsyncClose"}'
+
+
+def covers(quick):
+    """(name, constants, workers): the transition covers that are replayed. `two-writers` contains every
+    schedule of the former single-writer cover (same bounds, MaxWriters = 1 is a sub-graph)."""
+    if quick:
+        return [
+            ("two-writers", dict(MaxPeer=3, MaxCalls=3, MaxWriters=2, PeerKinds=KINDS3, CallApis=APIS4), 1),
+            ("re-entrant", dict(MaxPeer=3, MaxCalls=2, MaxWriters=2, ReadThens="{0, 2}", WriteThens="{0, 1}", Glue="TRUE",
+                                PeerKinds='{"data", "ping"}', CallApis=APIS4), 1),
+        ]
+    return [
+        ("all-apis", dict(MaxPeer=3, MaxCalls=4, MaxWriters=1, PeerKinds=KINDS6, CallApis=APIS6), 3),
+        ("two-writers", dict(MaxPeer=3, MaxCalls=4, MaxWriters=2, PeerKinds=KINDS3, CallApis=APIS4), 3),
+        ("re-entrant", dict(MaxPeer=3, MaxCalls=3, MaxWriters=2, ReadThens="{0, 2}", WriteThens="{0, 1}", Glue="TRUE",
+                            PeerKinds='{"data", "ping"}', CallApis=APIS4), 3),
+        ("re-entrant-close", dict(MaxPeer=2, MaxCalls=3, MaxWriters=2, ReadThens="{0, 2}", WriteThens="{0, 1}", Glue="TRUE",
+                                  PeerKinds=KINDS3, CallApis=APIS4), 3),
+    ]
+
+
 def run(ck):
     from concurrent.futures import ThreadPoolExecutor
     vlib.build_harness()
     sw = vlib.prep_spec("WsSession", ck.work)
     quick = ck.tier == "quick"
-    ck.cov["rule"] = ("schedules = every transition of the exhaustive WsAsyncImpl state graph (shortest path + edge), replayed with "
-                      "deferred completions; a seeded slice of them plus seeded partial-write scenarios on real sockets; "
-                      "non-trivial (scripted) = a call was issued while a transport write was parked; "
+    ck.cov["rule"] = ("schedules = every transition of the exhaustive WsAsyncImpl state graphs (shortest path + edge) of the listed "
+                      "covers (two write-side calls in flight; callbacks that issue follow-up calls + coalesced peer frames), "
+                      "replayed with deferred completions; a seeded slice of them plus seeded re-entrant and partial-write "
+                      "scenarios on real sockets; non-trivial (scripted) = a call was issued while a transport write was parked; "
                       "non-trivial (real) = a control reply went over the wire")
     model_findings = set()
-    cover_file = os.path.join(ck.work, "cover.jsonl")
+    base = dict(Partial="TRUE", BUG_SingleRecord="FALSE", BUG_WaitersLive="FALSE", BUG_CloseBypass="FALSE")
 
-    def cover():
-        consts = {"MaxPeer": 3, "MaxCalls": 3 if quick else 4, "Partial": "TRUE", "BUG_SingleRecord": "FALSE"}
-        if not quick:
-            consts["PeerKinds"] = '{"data", "ping", "pong", "closeValid", "viol", "eof"}'
-            consts["CallApis"] = '{"AsyncNextFrame", "AsyncNextMessage", "AsyncWrite", "AsyncWriteFrame", "AsyncFlush", "AsyncClose"}'
+    def cover(item):
+        name, extra, workers = item
+        consts = dict(base, **extra)
         cfg = vlib.cfg_with(sw, "WsAsyncImpl_mc.cfg", consts)
-        r = vlib.tlc(sw, SPECMOD, cfg, workers=1, timeout=1500, env={"JAVA_TOOL_OPTIONS": "-Xmx4g"})
+        r = vlib.tlc(sw, SPECMOD, cfg, workers=workers, timeout=1500, env={"JAVA_TOOL_OPTIONS": "-Xmx4g"})
         if not r.ok:
-            raise vlib.Inconclusive("WsAsyncImpl cover: %s\n%s" % (r.violated or r.error, r.tail()))
-        ck.add_tlc("WsAsyncImpl transition cover", r, consts)
+            raise vlib.Inconclusive("WsAsyncImpl cover %s: %s\n%s" % (name, r.violated or r.error, r.tail()))
+        ck.add_tlc("WsAsyncImpl transition cover " + name, r, consts)
         for line in r.lines('<<"MODELBAD"'):
             model_findings.add(line.split('"')[3])
-        n = vlib.edges_to_file(r, cover_file)
+        beh = os.path.join(ck.work, "cover_%s.jsonl" % name)
+        n = vlib.edges_to_file(r, beh)
         os.remove(r.outpath)
         if n == 0:
-            raise vlib.Inconclusive("cover produced no behaviours")
-        return n
+            raise vlib.Inconclusive("cover %s produced no behaviours" % name)
+        # driver 1: scripted transport, deferred completions: the whole cover
+        _validate(ck, sw, "deferred_" + name, beh, "transition cover '%s' on the scripted deferred-completion transport" % name,
+                  "wssession-deferred", "split=frame", ck.seed)
+        return name, beh, n
 
     def count():
-        consts = {"MaxPeer": 3, "MaxCalls": 4 if quick else 5, "Partial": "TRUE", "BUG_SingleRecord": "FALSE",
-                  "PeerKinds": '{"data", "ping", "closeValid"}' if quick else '{"data", "ping", "pong", "closeValid", "viol", "eof"}'}
+        consts = dict(base, MaxPeer=3, MaxCalls=4 if quick else 5, MaxWriters=1, PeerKinds=KINDS3 if quick else KINDS6)
         cfg = vlib.cfg_with(sw, "WsAsyncImpl_count.cfg", consts)
-        r = vlib.tlc(sw, SPECMOD, cfg, workers=3 if quick else max(4, vlib.NCPU - 6), timeout=1500, env={"JAVA_TOOL_OPTIONS": "-Xmx8g"})
+        r = vlib.tlc(sw, SPECMOD, cfg, workers=3 if quick else max(4, vlib.NCPU - 8), timeout=1500, env={"JAVA_TOOL_OPTIONS": "-Xmx8g"})
         if not r.ok:
             raise vlib.Inconclusive("WsAsyncImpl exhaustive: %s\n%s" % (r.violated or r.error, r.tail()))
         ck.add_tlc("WsAsyncImpl exhaustive", r, consts)
         for line in r.lines('<<"MODELBAD"'):
             model_findings.add(line.split('"')[3])
 
-    def repaired():
-        # the spec with the defect switched back on (every AsyncFlush starts its own transport write,
-        # overwriting the adapter's single write record) must reject: evidence that the model sees it
-        consts = {"MaxPeer": 2, "MaxCalls": 3, "Partial": "TRUE", "BUG_SingleRecord": "TRUE"}
-        cfg = vlib.cfg_with(sw, "WsAsyncImpl_count.cfg", consts)
-        r = vlib.tlc(sw, SPECMOD, cfg, workers=1, timeout=900, env={"JAVA_TOOL_OPTIONS": "-Xmx8g"})
-        keys = sorted({line.split('"')[3] for line in r.lines('<<"MODELBAD"')})
-        ck.cov["bug_switch_demo"] = {"BUG_SingleRecord=TRUE": keys or "NOT caught"}
+    def switches():
+        # the spec with a defect switched on must reject: evidence that the model (and so the generated
+        # schedules) can see it. BUG_SingleRecord: the code before 14866fd; BUG_WaitersLive / BUG_CloseBypass:
+        # the seeded defects C17-2 / C16-2 (notes/C17.md)
+        demo = {}
+        small = dict(MaxPeer=2, MaxCalls=3)
+        for sw_name, extra in (("BUG_SingleRecord", dict(small)),
+                               ("BUG_WaitersLive", dict(small, MaxCalls=2, MaxWriters=2, ReadThens="{0, 2}", WriteThens="{0, 1}",
+                                                        Glue="TRUE", PeerKinds='{"ping"}')),
+                               ("BUG_CloseBypass", dict(small, MaxWriters=2))):
+            consts = dict(base, **extra)
+            consts[sw_name] = "TRUE"
+            cfg = vlib.cfg_with(sw, "WsAsyncImpl_count.cfg", consts)
+            r = vlib.tlc(sw, SPECMOD, cfg, workers=1, timeout=900, env={"JAVA_TOOL_OPTIONS": "-Xmx4g"})
+            keys = sorted({line.split('"')[3] for line in r.lines('<<"MODELBAD"')})
+            demo[sw_name + "=TRUE"] = keys or "NOT caught"
+            os.remove(r.outpath)
+        ck.cov["bug_switch_demo"] = demo
 
-    with ThreadPoolExecutor(max_workers=3) as ex:
-        fc, fn, fr = ex.submit(cover), ex.submit(count), ex.submit(repaired)
-        ncover = fc.result()
-        # driver 1: scripted transport, deferred completions: the whole cover
-        _validate(ck, sw, "deferred", cover_file, "transition cover on the scripted deferred-completion transport",
-                  "wssession-deferred", "split=frame", ck.seed)
-        # driver 2: real adapter, real sockets: a seeded slice of the cover + partial-write scenarios
+    with ThreadPoolExecutor(max_workers=6) as ex:
+        fn, fr = ex.submit(count), ex.submit(switches)
+        done = [f.result() for f in [ex.submit(cover, it) for it in covers(quick)]]
+        # driver 2: real adapter, real sockets: a seeded slice of every cover (for the re-entrant cover: of the
+        # schedules that do carry follow-up calls) + re-entrant and partial-write scenarios
         rnd = random.Random(ck.seed)
-        want = 150 if quick else 4200
-        keep = set(rnd.sample(range(1, ncover + 1), min(want, ncover)))
+        want = (150 if quick else 4200) // len(done)
         real_file = os.path.join(ck.work, "real.jsonl")
-        with open(cover_file) as f, open(real_file, "w") as out:
-            for i, line in enumerate(f, 1):
-                if i in keep:
-                    out.write(line)
+        with open(real_file, "w") as out:
+            for name, beh, n in done:
+                elig = (lambda l: '"then":1' in l or '"then":2' in l) if name == "re-entrant" else (lambda l: True)
+                with open(beh) as f:
+                    idx = [i for i, l in enumerate(f) if elig(l)]
+                keep = set(rnd.sample(idx, min(want, len(idx))))
+                with open(beh) as f:
+                    for i, l in enumerate(f):
+                        if i in keep:
+                            out.write(l)
+            for s in reentrant_scenarios(ck.seed, 24 if quick else 400):
+                out.write(json.dumps(s) + "\n")
             for s in partial_scenarios(ck.seed, 54 if quick else 810):
                 out.write(json.dumps(s) + "\n")
-        _validate(ck, sw, "real", real_file, "real AsyncAdapter on loopback TCP (slice of the cover + partial-write scenarios)",
+        _validate(ck, sw, "real", real_file,
+                  "real AsyncAdapter on loopback TCP (slices of the covers + re-entrant + partial-write scenarios)",
                   "wssession-real", "split=frame", ck.seed, confirm=True)
         fn.result()
         fr.result()
@@ -180,10 +261,11 @@ def run(ck):
     ck.cov["model_findings"] = sorted(model_findings)
     ck.cov["exhaustive"] = True
     ck.assumptions += [
-        "one read call and one write-side call in flight at a time (the statement's 'an asynchronous read and an asynchronous write')",
-        "the scripted transport mimics sonic.AsyncAdapter: completions never happen inside the call, a second AsyncWriteAll overwrites the single write record",
+        "one read call and up to two write-side calls in flight at a time; completion callbacks may issue the same call again (a write chained from the write callback, a read re-armed from the read callback: up to 2 / 1 follow-ups per explicit call)",
+        "the scripted transport mimics sonic.AsyncAdapter: completions never happen inside the call, a second AsyncWriteAll overwrites the single write record; peer frames may share a segment (one transport read returns both)",
         "a frame is two units in the model; partial acceptance is exercised on the scripted transport only: the real adapter writes through net.Conn.Write, which blocks the loop until the whole buffer is written (minimal SO_SNDBUF/SO_RCVBUF and 0.2-1 MiB messages only make that write long)",
-        "on real sockets one PollOne may deliver a read and a write completion of the model in one cycle (read first); the monitor does not depend on the order"]
+        "on real sockets one PollOne may deliver a read and a write completion of the model in one cycle (read first) and everything the peer sent before a poll cycle is read as one segment; the monitor does not depend on the order",
+        "rules of C08 (the other property of the shared monitor) are not enforced here: coverage.other_property_rejections lists what they would have rejected"]
 
 
 def replay(ck, path):
